@@ -349,6 +349,16 @@ def run(R):
                     "on_after_batch_flush(%s) fires on every exit after the flush, exceptional exits included" % barg,
                     "after the flush (in particular when it raises) the method can be left without on_after_batch_flush(%s)" % barg,
                     mcfg.fmt_path(p) if p else None)
+            # paired: once the before event has fired (returned normally), no exit skips the after event -- subscribers keep
+            # gauges / timers between the two, and a subscriber of the before event may itself complete the batch
+            for b in bn:
+                bstarts = [e.dst for e in mcfg.out_edges(b.id, N) if e.label != "exc"]
+                p = mcfg.find_path(bstarts, [mcfg.exit, mcfg.raise_exit], X, cut_nodes=an) if an else None
+                R.check(p is None and an, "C05.EVENTS", "%s:paired:%s" % (fm.qualname, q.stmt_key(call)), site,
+                        "every on_before_batch_flush(%s) that fired is followed by on_after_batch_flush(%s) on every exit" % (barg, barg),
+                        "after on_before_batch_flush(%s) fired the method can be left without on_after_batch_flush(%s) (e.g. when a subscriber of the "
+                        "before event already completed the batch): the events no longer come in pairs" % (barg, barg),
+                        mcfg.fmt_path(p) if p else None)
             # exactly once
             for which, nodes in (("before", bn), ("after", an)):
                 p = kit.at_most_once(fm, nodes, X) if nodes else None
@@ -492,6 +502,34 @@ def item_once(R, comp, rule):
                     "are never told)",
                     cfg.fmt_path(p) if p else None)
     R.need(cnt >= 1, "idiom: no item completion found in BatchBase._computed")
+    # every item is visited: the walk over the items is not cut short (break / return inside the loop) -- a flush body may set any
+    # subset of the items, in any order, so "stop at the first computed one" leaves earlier unset items pending
+    for loop in loops:
+        cuts = []
+        def scan(stmts, top=True):
+            for st in stmts:
+                for x in ast.walk(st) if not isinstance(st, (ast.For, ast.While, ast.FunctionDef)) else [st]:
+                    if isinstance(x, (ast.Break, ast.Return)):
+                        cuts.append(x)
+        def walk_body(stmts):
+            for st in stmts:
+                if isinstance(st, (ast.FunctionDef, ast.Lambda)):
+                    continue
+                if isinstance(st, (ast.For, ast.While)):
+                    # a break inside a nested loop leaves only that loop; a return leaves ours too
+                    cuts.extend(x for x in ast.walk(st) if isinstance(x, ast.Return))
+                    continue
+                if isinstance(st, (ast.Break, ast.Return)):
+                    cuts.append(st)
+                for fld in ("body", "orelse", "finalbody", "handlers"):
+                    sub = getattr(st, fld, None)
+                    if sub:
+                        walk_body([h for h in sub] if fld != "handlers" else [b for h in sub for b in h.body])
+        walk_body(loop.body)
+        R.check(not cuts, rule, "%s:every-item" % comp.qualname, R.site(comp, cuts[0] if cuts else loop),
+                "the completion visits every item of the batch (no break/return cuts the walk short)",
+                "the walk over the batch's items in _computed can stop early (`%s` at line %s): items the flush body left unset before that point are "
+                "never completed, although their batch is flushed" % (q.src(cuts[0]) if cuts else "", getattr(cuts[0], "lineno", "?") if cuts else ""))
     # the items are still there when the completion walks them: the list is emptied only after the batch is computed (i.e. after
     # the call that computes it returned), never between the flush body and the completion
     bb = comp.cls
